@@ -35,6 +35,7 @@ func (c20) Batches(tier string, seed uint64) []core.Batch {
 	b = append(b, spread("ok", 4, tierN(tier, 72, 400))...)
 	b = append(b, spread("fault", 4, tierN(tier, 120, 600))...)
 	b = append(b, spread("hostile", 4, tierN(tier, 60, 300))...)
+	b = append(b, spread("sequence", 2, tierN(tier, 24, 120))...)
 	if tier == "thorough" {
 		b = append(b, spread("strace", 8, 12)...)
 	}
@@ -57,7 +58,7 @@ func (c20) Mandatory(tier string) []string {
 		m = append(m, "strace:syscalls-observed", "strace:dry-run:Copy", "strace:dry-run:Move", "strace:dry-run:Remove", "strace:injected:Copy", "strace:injected:Move", "strace:injected:Remove")
 	}
 	return append(m, "fault:Copy:control-copy-cut-short", "fault:Remove:missing-source", "k:0", "k:1", "k:2+", "order:copy-control-after-all-closed", "order:move-control-last",
-		"order:remove-control-last", "hostile:../secret.txt", "hostile:sub/../../secret.txt", "hostile:../../other/o.txt", "hostile:/abs/x", "hostile:sub/inner.txt", "inotify-events-seen", "dest-has-longer-files-of-the-same-names")
+		"order:remove-control-last", "hostile:../secret.txt", "hostile:sub/../../secret.txt", "hostile:../../other/o.txt", "hostile:/abs/x", "hostile:sub/inner.txt", "inotify-events-seen", "dest-has-longer-files-of-the-same-names", "hostile:only-in-checksum-fields", "sequence:Copy then Remove", "sequence:Copy then Move", "sequence:Move then Remove", "sequence:Move then Move")
 }
 
 type c20Case struct {
@@ -66,6 +67,8 @@ type c20Case struct {
 	Names  []string `json:"names"` // listed names, in order
 	Fault  string   `json:"fault"` // none | missing-source:i | dest-occupied:i | dest-missing | dest-is-file | control-copy-cut-short
 	Pre    bool     `json:"pre,omitempty"` // the destination already holds (longer) files of the same names
+	SumNames []string `json:"sumnames,omitempty"` // names listed ONLY in Checksums-Sha1/-Sha256 (never in Files)
+	Then   string   `json:"then,omitempty"` // a second operation on the same handle after a successful first one: Remove | Move
 	Seed   uint64   `json:"seed"`
 }
 
@@ -126,6 +129,15 @@ func (p c20) run(c *core.C, t *core.T, cs c20Case) {
 		sb.WriteString("Format: 1.8\nSource: pkg\nBinary: pkg\nArchitecture: source\nVersion: 1.0-1\nDistribution: unstable\nMaintainer: A <a@example.org>\nChanges:\n pkg (1.0-1) unstable; urgency=low\nFiles:\n")
 		for _, n := range cs.Names {
 			sb.WriteString(fmt.Sprintf(" d41d8cd98f00b204e9800998ecf8427e 100 misc optional %s\n", n))
+		}
+	}
+	if len(cs.SumNames) > 0 {
+		for _, fld := range []string{"Checksums-Sha1", "Checksums-Sha256"} {
+			sb.WriteString(fld + ":\n")
+			hl := map[string]int{"Checksums-Sha1": 40, "Checksums-Sha256": 64}[fld]
+			for _, n := range append(append([]string{}, cs.Names...), cs.SumNames...) {
+				sb.WriteString(fmt.Sprintf(" %s 100 %s\n", strings.Repeat("a", hl), n))
+			}
 		}
 	}
 	sb.WriteString("X-Padding: " + strings.Repeat("x", 9000) + "\n") // larger than any referenced file
@@ -221,7 +233,47 @@ func (p c20) run(c *core.C, t *core.T, cs c20Case) {
 			opErr = up.Remove()
 		}
 	}
+	// a second operation on the same handle
+	secondDesc := ""
+	dst2 := filepath.Join(base, "dst2")
+	if cs.Then != "" && opErr == nil && cs.Op != "Remove" {
+		mid := snapshot(base)
+		var err2 error
+		switch cs.Then {
+		case "Remove":
+			err2 = up.Remove()
+		case "Move":
+			os.MkdirAll(dst2, 0o755)
+			err2 = up.Move(dst2)
+		}
+		fin := snapshot(base)
+		secondDesc = cs.Op + " then " + cs.Then
+		if err2 != nil {
+			c.Failf("%s: the second operation failed: %v", secondDesc, err2)
+		}
+		relD, relS, relD2 := "dst", filepath.Join("up", "src"), "dst2"
+		for _, n := range append([]string{ctlName}, cs.Names...) {
+			// the handle points at dst after the first operation: the second one acts THERE
+			if _, still := fin[filepath.Join(relD, n)]; still {
+				c.Failf("%s: %q is still in the first destination - the second operation did not act on the handle's new location", secondDesc, n)
+			}
+			if cs.Op == "Copy" && fin[filepath.Join(relS, n)] != mid[filepath.Join(relS, n)] {
+				c.Failf("%s: the second operation touched the ORIGINAL %q in the source directory (handle still points at the old location?)", secondDesc, n)
+			}
+			if cs.Then == "Move" && fin[filepath.Join(relD2, n)] != mid[filepath.Join(relD, n)] {
+				c.Failf("%s: %q did not arrive intact in the second destination", secondDesc, n)
+			}
+		}
+		c.Cover("sequence:" + secondDesc)
+		// restore what the single-operation checks below expect to see
+		os.RemoveAll(dst2)
+	}
 	after := snapshot(base)
+	if secondDesc != "" {
+		// the single-operation post-conditions below no longer apply to the final tree
+		c.Nontrivial()
+		return
+	}
 	var events []core.InotifyEvent
 	if ierr == nil {
 		events = ino.Drain()
@@ -344,6 +396,9 @@ func (p c20) run(c *core.C, t *core.T, cs c20Case) {
 		if !plain(n) {
 			c.Cover("hostile:" + n)
 		}
+	}
+	if len(cs.SumNames) > 0 {
+		c.Cover("hostile:only-in-checksum-fields")
 	}
 	switch k := len(cs.Names); {
 	case k == 0:
@@ -505,7 +560,8 @@ func (p c20) RunBatch(t *core.T, b core.Batch) {
 					faults = append(faults, "control-copy-cut-short")
 				}
 			}
-			emit(c20Case{Op: op, Handle: h, Names: names, Fault: faults[(i/6)%len(faults)], Seed: r.U64()})
+			f := faults[(i/6)%len(faults)]
+			emit(c20Case{Op: op, Handle: h, Names: names, Fault: f, Seed: r.U64(), Pre: op != "Remove" && i%2 == 1})
 		case "hostile":
 			k := r.Range(0, 3)
 			names := plainNames(r, k)
@@ -513,6 +569,12 @@ func (p c20) RunBatch(t *core.T, b core.Batch) {
 			pos := r.Intn(len(names) + 1)
 			names = append(names[:pos], append([]string{hn}, names[pos:]...)...)
 			emit(c20Case{Op: op, Handle: h, Names: names, Fault: "none", Seed: r.U64()})
+			// a hostile name that appears only in the checksum fields, never in Files
+			emit(c20Case{Op: op, Handle: h, Names: plainNames(r, r.Range(1, 3)), SumNames: []string{hn}, Fault: "none", Seed: r.U64()})
+		case "sequence":
+			first := []string{"Copy", "Move"}[i%2]
+			then := []string{"Remove", "Move"}[(i/2)%2]
+			emit(c20Case{Op: first, Handle: h, Names: plainNames(r, 1+i%4), Fault: "none", Then: then, Seed: r.U64()})
 		}
 	}
 }
